@@ -14,6 +14,12 @@ Two kinds of histories:
  * odd (oracle only, no model requests): names and ids that are not texts (int, bool, float, NaN,
    bytes, tuple - what `name: 7` in a YAML / JSON source produces; the library stores them unchanged),
    and documents loaded from YAML / JSON / XML text instead of being constructed.
+
+Between the operations the executor also asks the derived queries (`.document` of the objects - the
+answer is compared with the model, lean/OdmlModel/Model/HeapQuery.lean, and with the root of the
+parent chain; `get_path`, `itersections`, `iterproperties`, an absolute path lookup - they only have
+to terminate) following a query plan (`Queries`): after every operation, at some points only, or
+only at the end - an answer given before an ancestor was moved must not survive the move.
 """
 import json
 import unicodedata
@@ -288,6 +294,10 @@ class Gen(object):
         if kind != "doc" and op["name"] == "":
             # "no name" reaches the library as None or as the empty string (the model treats both alike)
             op["empty"] = r.choice(["none", "str"])
+        if kind == "prop" and r.random() < 0.3:
+            # a Property without values is falsy (len() == 0), like a Section without children and a
+            # Document without Sections: no test of the library may take such an object for "no object"
+            op["novals"] = r.choice(["none", "list"])
         return op
 
     # -- blocks: a macro operation and operations aimed at what it built ------------------------
@@ -416,6 +426,87 @@ class Gen(object):
             return [{"op": "set_item", "p": par, "sec_list": r.random() < 0.5, "key": r.randrange(-3, 4), "v": x}]
         return [{"op": "extend", "p": par, "xs": [self.anyobj(), x]}]
 
+    def deep_block(self):
+        """A chain of nested Sections (depth 2-5, a Property at the bottom and sometimes beside the
+        middle), then the top or a middle Section is moved by every route there is - appended / inserted
+        / extended / assigned into a Section list elsewhere, re-parented to another Document, below a
+        Section, to None, removed, replaced by an item assignment - and moved again: whatever the
+        objects below it answered before (parent, document, path) has to follow the move."""
+        r = self.rng
+        ops = []
+        if r.random() < 0.5:
+            ops.append(self.construct("doc", False))
+            if r.random() < 0.6:
+                ops.append(self.construct("sec", True))
+        top = self.construct("sec", True)
+        top["mark"] = "deep_top"
+        top["args_ok"] = True
+        ops.append(top)
+        depth = r.randrange(1, 5)
+        mid_at = r.randrange(0, depth)
+        for lvl in range(depth):
+            op = self.construct("sec", False)
+            op["parent"] = last("made")
+            op["args_ok"] = True
+            op["mark"] = "deep_mid" if lvl == mid_at else "deep_low"
+            ops.append(op)
+        if r.random() < 0.7:
+            op = self.construct("prop", False)
+            op["parent"] = last("made")
+            op["args_ok"] = True
+            ops.append(op)
+        top_h, mid_h = last("deep_top"), last("deep_mid")
+        for _ in range(r.randrange(1, 4)):
+            x = top_h if r.random() < 0.65 else mid_h
+            dest = r.choice([P(r, "doc"), P(r, "doc"), self.cont(), self.cont(), P(r, "sec")])
+            c = r.randrange(10)
+            if c < 3:
+                ops.append({"op": "set_parent", "x": x, "np": r.choice([None, dest, dest, dest])})
+            elif c == 3:
+                ops.append({"op": "append", "p": dest, "x": x})
+            elif c == 4:
+                ops.append({"op": "insert", "p": dest, "pos": self.pos(-3, 5), "x": x})
+            elif c == 5:
+                xs = [x] + ([self.anyobj()] if r.random() < 0.3 else [])
+                r.shuffle(xs)
+                ops.append({"op": "extend", "p": dest, "xs": xs, "form": r.choice(["list", "tuple", "iter"])})
+            elif c == 6:
+                ops.append({"op": "set_item", "p": dest, "sec_list": True, "key": r.randrange(-3, 4), "v": x})
+            elif c == 7:
+                ops.append({"op": "remove", "p": parent_of(x), "x": x})
+            elif c == 8:
+                # something else takes the place of the chain's top / middle: the replaced Section is
+                # detached together with everything below it
+                ops.append({"op": "set_item", "p": parent_of(x), "sec_list": True,
+                            "key": r.randrange(-3, 4), "v": r.choice([P(r, "sec"), self.sibling_of(x)])})
+            else:
+                # the other way round: an ancestor moves below what used to be below it (refused), or
+                # the bottom of the chain moves up
+                ops.append({"op": "set_parent", "x": r.choice([top_h, last("deep_low")]),
+                            "np": r.choice([mid_h, last("deep_low"), parent_of(top_h)])})
+        return ops
+
+    def oddpos_block(self):
+        """(oracle-only stream) a position / key that is not a plain machine-size int - a float,
+        integral or not, an int beyond the machine word, bool, None, text, NaN - handed to every
+        operation that takes one, for a Property and for a Section that do live in a list."""
+        r = self.rng
+        ops = []
+        for _ in range(r.randrange(1, 3)):
+            v = r.choice(ODD_POS)
+            v = dict(v) if isinstance(v, dict) else v
+            x = r.choice([P(r, "prop"), P(r, "sec"), self.child_of(self.cont())])
+            c = r.randrange(4)
+            if c < 2:
+                ops.append({"op": "reorder", "x": x, "idx": v})
+            elif c == 2:
+                ops.append({"op": "insert", "p": r.choice([parent_of(x), self.cont()]), "pos": v,
+                            "x": r.choice([x, self.anyobj()])})
+            else:
+                ops.append({"op": "set_item", "p": r.choice([parent_of(x), self.cont()]),
+                            "sec_list": r.random() < 0.5, "key": v, "v": r.choice([x, self.anyobj()])})
+        return ops
+
     def load(self):
         """A document given as YAML / JSON / XML text (oracle-only stream)."""
         r = self.rng
@@ -468,6 +559,12 @@ class Gen(object):
                 continue
             if block < 0.16:
                 ops.extend(self.readd_block())
+                continue
+            if block < 0.20:
+                ops.extend(self.deep_block())
+                continue
+            if self.odd and block < 0.27:
+                ops.extend(self.oddpos_block())
                 continue
             choice = r.random()
             cont, anyobj, child = self.cont, self.anyobj, self.child
@@ -575,14 +672,18 @@ class World(object):
                                        sec_cardinality=bad)
             else:
                 bad = (3, 1) if not op["args_ok"] else None
+                vals = {"none": None, "list": []}.get(op.get("novals"), [1])
                 if op.get("via") == "create" and parent is not None and op["args_ok"] \
                         and hasattr(parent, "create_property"):
-                    obj = parent.create_property(name=name, values=[1], oid=oid)
+                    obj = parent.create_property(name=name, values=vals, oid=oid)
                 else:
-                    obj = odml.Property(name=name, values=[1], oid=oid, parent=parent,
+                    obj = odml.Property(name=name, values=vals, oid=oid, parent=parent,
                                         val_cardinality=bad)
             O.append(obj)
             op["fresh"] = obj.id
+            self.last["made"] = len(O) - 1
+            if op.get("mark"):
+                self.last[op["mark"]] = len(O) - 1
         elif kind == "new_id":
             try:
                 O[op["x"]].new_id(decode(op["oid"]))
@@ -886,11 +987,147 @@ def _mirror(w, op):
                 w.last["mirror_copy"] = n
 
 
-def run_history(ops):
-    """-> (trace, resolved ops): per executed op {"out", "snap"}; ops that cannot be resolved are dropped."""
+# ----------------------------------------------------------------------------- derived queries
+Q_MODES = ["all", "all", "all", "sparse", "sparse", "end"]
+
+
+def q_plan(rng):
+    """The query plan of one history (part of the case, so a replay asks the same questions)."""
+    return {"mode": rng.choice(Q_MODES), "seed": rng.randrange(1 << 30)}
+
+
+class Queries(object):
+    """Asks the derived queries between the operations of a history.
+
+    mode "all": `.document` of every object after every operation (an answer computed at any point
+    of the history is checked again after every later operation); "sparse": of some objects at some
+    points (objects are also left unasked for a while: nothing may rely on the query having run);
+    "end": only after the last operation. Independently of the mode some objects are asked for
+    get_path(), itersections(), iterproperties() and an absolute path lookup (these walk the tree
+    and ask for documents inside the library); they only have to come back."""
+
+    def __init__(self, plan=None):
+        import random
+        plan = plan or {"mode": "all", "seed": 0}
+        self.mode = plan.get("mode", "all")
+        self.rng = random.Random(plan.get("seed", 0))
+
+    @staticmethod
+    def document(w, o):
+        try:
+            d = o.document
+        except RecursionError:
+            return "!RecursionError"
+        except Exception as exc:
+            return "!" + fw.exc_name(exc)
+        return None if d is None else w.handle_of(d)
+
+    @staticmethod
+    def warm(w, o):
+        k = w.kind(o)
+        calls = []
+        if k != "prop":
+            calls.append(lambda: len(list(o.itersections())))
+            calls.append(lambda: len(list(o.iterproperties())))
+        if k == "sec":
+            calls.append(lambda: o.get_section_by_path(o.get_path()))
+            calls.append(lambda: o.get_section_by_path("/"))
+        calls.append(o.get_path)
+        out = []
+        for call in calls:
+            try:
+                call()
+                out.append("ok")
+            except RecursionError:
+                out.append("RecursionError")
+            except Exception:
+                out.append("raised")        # e.g. "/".join over a name that is not a text
+        return out
+
+    broken = False
+    cyclic = False
+
+    def after(self, w, snap):
+        """The queries after one operation. Once the tree is not well-formed any more (that is
+        reported by the oracle; nothing is expected beyond it) no further question is asked: on a
+        cyclic structure the walks of the library do not come back."""
+        if not self.broken:
+            fails = wf_failures([_LOST if o is None else o for o in snap])
+            if fails:
+                self.broken = True
+                # an object that is its own ancestor: the history ends here (the break is reported by
+                # the oracle at this step; every later operation that walks up - _check_no_cycle,
+                # get_path - would spin until the case timeout, and nothing beyond a broken tree is
+                # judged anyway)
+                self.cyclic = any("own ancestor" in f for f in fails)
+        return {} if self.broken else self.ask(w)
+
+    def finish(self, w, trace):
+        if trace and not self.broken and self.mode != "all":
+            trace[-1]["q"] = self.ask(w, final=True)
+
+    def ask(self, w, final=False):
+        r = self.rng
+        live = [(i, o) for i, o in enumerate(w.objs) if o is not None]
+        warmed = []
+        for i, o in live:
+            if r.random() < (0.15 if self.mode == "all" else 0.3):
+                warmed.append([i, self.warm(w, o)])
+        if final or self.mode == "all":
+            chosen = live
+        elif self.mode == "sparse" and r.random() < 0.6:
+            chosen = [x for x in live if r.random() < 0.5]
+        else:
+            chosen = []
+        return {"doc": [[i, self.document(w, o)] for i, o in chosen], "warm": warmed}
+
+
+_LOST = {"kind": "sec", "name": "#lost", "id": "", "parent": None, "secs": [], "props": []}
+
+
+def split_docs(msnap):
+    """A model snapshot -> (snapshot without the answers of the query model, the answers)."""
+    docs = []
+    for o in msnap:
+        docs.append(o.pop("doc", None) if isinstance(o, dict) else None)
+    return msnap, docs
+
+
+def doc_disagreements(q, mdocs):
+    return ["object %d: .document is %r, the model of the query answers %r" % (i, a, mdocs[i])
+            for i, a in (q or {}).get("doc", []) if i < len(mdocs) and a != mdocs[i]]
+
+
+def doc_failures(snap, q):
+    """`an object's document is the root of its parent chain` over one well-formed snapshot: the
+    root is found by walking the `parent` entries of the snapshot (what `.parent` answered)."""
+    fails = []
+    for i, ans in (q or {}).get("doc", []):
+        if i >= len(snap) or snap[i] is None:
+            continue
+        cur, steps = i, 0
+        while cur is not None and cur != "?" and snap[cur]["parent"] is not None and steps <= len(snap):
+            cur = snap[cur]["parent"]
+            steps += 1
+        if cur is None or cur == "?" or steps > len(snap):
+            continue
+        want = cur if snap[cur]["kind"] == "doc" else None
+        if ans != want:
+            fails.append("object %d: .document is %s, the root of its parent chain is object %d (%s): expected %s"
+                         % (i, ans, cur, snap[cur]["kind"], want))
+    for i, outs in (q or {}).get("warm", []):
+        if "RecursionError" in outs:
+            fails.append("object %d: a path / traversal query did not terminate (RecursionError)" % i)
+    return fails
+
+
+def run_history(ops, plan=None):
+    """-> (trace, resolved ops): per executed op {"out", "snap", "q"}; ops that cannot be resolved are
+    dropped. "q": what the derived queries answered after the op (see Queries)."""
     w = World()
     trace = []
     done = []
+    qs = Queries(plan)
     for op in ops:
         for cop in expand(w, op):
             try:
@@ -900,8 +1137,12 @@ def run_history(ops):
                 out = "RecursionError"
             except Exception as exc:
                 out = fw.exc_name(exc)
-            trace.append({"out": out, "snap": w.snapshot()})
+            snap = w.snapshot()
+            trace.append({"out": out, "snap": snap, "q": qs.after(w, snap)})
             done.append(cop)
+            if qs.cyclic:
+                return trace, done
+    qs.finish(w, trace)
     return trace, done
 
 
@@ -910,7 +1151,8 @@ def model_ops(done):
     translated, see model_text)."""
     out = []
     for op in done:
-        m = dict((k, v) for k, v in op.items() if k not in ("via", "macro", "form", "iter_of"))
+        m = dict((k, v) for k, v in op.items()
+                 if k not in ("via", "macro", "form", "iter_of", "mark", "novals"))
         if isinstance(m.get("oid"), str):
             m["oid"] = model_text(m["oid"])
         out.append(m)
